@@ -48,6 +48,8 @@ structure Hdr where
   upd : UpdForm
   uk : Option UpdKind
   updv : CVal
+  /-- the iterator is the right operand of the comparison (`N > i`) -/
+  iterRight : Bool
   deriving DecidableEq, Repr
 
 /-- outcome of a check: accepted, rejected with an error, or the translator itself traps -/
@@ -91,11 +93,18 @@ def Hdr.constCount (h : Hdr) : Option (Option Int) :=
     | .const s => if s = 0 then some none else some (some (Int.tdiv (cnt + s - 1) s))
   | _, _ => none
 
+/-- the iterator is on the smaller side of the comparison: `i < N`, `i <= N`, `N > i`, `N >= i` -/
+def Hdr.iterSmaller (h : Hdr) : Bool :=
+  (match h.op with
+   | some .lt | some .le => true
+   | _ => false) == !h.iterRight
+
 /-- the constructor of oklForStatement followed by `isValid()` (with the repairs F60: a constant
     zero step is an error, it is not divided by; F63: a loop carrying both @outer and @inner is
-    invalid, not only reported) -/
+    invalid, not only reported; F70: the update has to move the iterator towards the bound) -/
 def Hdr.verdict (h : Hdr) : Res :=
   if !h.formsOk then .bad else
+  if h.iterSmaller != h.positive then .bad else
   match h.constCount with
   | none => .ok
   | some none => .bad
